@@ -487,7 +487,9 @@ Definition finder_doc (bi : list name) (ns : list (list name)) (p : program)
   let '(stk, s0) := init_state bi ns in
   let s1 := scan_node true p stk s0 in
   let miss := sort_by key_leb (map (fun m => (m_line m, m_name m)) (missing s1)) in
-  let s2 := fold_left (scan_doctest true stk) (flat_map fst (docstrings_of p)) s1 in
+  let s2' := fold_left (scan_doctest true stk) (flat_map fst (docstrings_of p)) s1 in
+  (* repaired (fixes/C02a): del self.unused_imports[n_unused_before_doctests:] *)
+  let s2 := with_unused s2' (unused s1) in
   let s3 := fold_left (fun s n => snd (needs s stk [n])) (brace_ids p) s2 in
   (miss, sort_by ukey_leb (unused (scan_unused stk s3))).
 Definition scan_issues_doc (bi : list name) (p : program) := finder_doc bi [[]] p.
